@@ -136,7 +136,7 @@ func scenarioC08Slow(c *Ctx, r *Rng, hold time.Duration) {
 		fail("silent-after-close", fmt.Sprintf("%d reporter call(s) after Close returned", n-n0))
 		return
 	}
-	deadline := time.Now().Add(500 * time.Millisecond)
+	deadline := time.Now().Add(5 * time.Second) // generous: only a goroutine that really stays costs this time
 	for goroutinesContaining("(*scope).reportLoop") > 0 && time.Now().Before(deadline) {
 		time.Sleep(200 * time.Microsecond)
 	}
